@@ -703,6 +703,13 @@ func c18c(c *Ctx) {
 func c18d(c *Ctx) {
 	envCallee := map[string]bool{"LoadFontConfig": true, "FormatText": true}
 	n := 0
+	// the format() parameter parser together with its private helpers
+	formatUnit := map[*ssa.Function]bool{}
+	if f := c.Fn("parser.Parser.parseFormatStringOperator"); f != nil {
+		for _, m := range c.unitOf(f) {
+			formatUnit[m.fn] = true
+		}
+	}
 	for _, fn := range libraryFuncs(c) {
 		pkg := c.W.PkgShort(fn)
 		if pkg == "" {
@@ -747,7 +754,7 @@ func c18d(c *Ctx) {
 				}
 			}
 			if errV == nil || errV.Referrers() == nil || len(*errV.Referrers()) == 0 {
-				if name == "strconv.ParseInt" && fn.Name() == "parseFormatStringOperator" {
+				if name == "strconv.ParseInt" && formatUnit[fn] {
 					c.OK(key, pos, "ParseInt on an INT token inside format() parameters: error cannot occur for digits the lexer accepted (named exception)")
 					continue
 				}
